@@ -50,6 +50,7 @@ for f in k['fixed']:
     rows.append('| %s | %s | %s |' % (m.group(1), m.group(2), m.group(3).replace('|', '/').replace('\n', ' ')[:330]))
 xtab = '\n'.join(rows)
 text = open(path).read()
+text = re.sub(r'<!-- fix-count -->\d+<!-- /fix-count -->', '<!-- fix-count -->%d<!-- /fix-count -->' % len(k['fixed']), text)
 for tag, body in (('findings-table', ftab), ('fixed-table', xtab)):
   if '<!-- %s -->' % tag in text:
     text = re.sub(r'<!-- %s -->.*?<!-- /%s -->' % (tag, tag), lambda _: '<!-- %s -->\n%s\n<!-- /%s -->' % (tag, body, tag), text, flags=re.S)
